@@ -7,6 +7,7 @@ CONSTANTS
   MaxSusp = 1
   MaxOps = 7
   Waiters = {1, 2}
+  KeepAlive = FALSE
   Deviations = {}
 VIEW view
 INVARIANTS NoViolation CounterExact CounterBounded DrainsToMin RejectAfterStop NoCollateral
